@@ -255,6 +255,14 @@ def run(ctx, rep):
                   what="no iteration of the extend loop skips the total_size addition: every listed pack is counted" if not skip else
                        "some path round the extend loop skips `total_size += pack_size()`: packs taking that path are missing from the size totals")
         # the pack is also registered in its type's bucket on every iteration where that is possible (pack counts)
+    # total_size(type) answers from the bucket of the requested type only
+    TS = prog.bodies.get(f"<{BS}Index as rustic_core::index::ReadIndex>::total_size")
+    if TS is not None:
+        reads = [s_ for blk in TS.blocks for s_ in blk["s"] if s_[0] == "=" and s_[2][0] == "use" and op_place(s_[2][1]) and "total_size" in place_fields(op_place(s_[2][1]))]
+        idx = [(bb, t) for bb, t in TS.calls() if "callee" in t and re.search(r"ops::Index<.*>>::index$|Index<BlobType>", callee(t))]
+        okt = len(reads) == 1 and len(idx) == 1 and 2 in flow.backward_slice(TS, op_place(idx[0][1]["args"][1]))["args"] and not any(s_[2][0] == "bin" for blk in TS.blocks for s_ in blk["s"] if s_[0] == "=")
+        rep.check("C17.d", "total-size-per-type", okt, where=TS.loc(), what="total_size(type) returns the total of exactly the requested type's bucket" if okt else
+                  "total_size(type) does not return exactly the requested type's bucket total (mixes types or ignores its argument)")
     # ---- C17.f ------------------------------------------------------------------------------------
     from rules import errprop
     errprop.run_items(ctx, rep, "C17.f")
